@@ -188,43 +188,78 @@ fn gen_allow(rng: &mut Rng, pool: &[String]) -> Vec<String> {
         .collect()
 }
 
-fn main() {
-    std::env::set_var("KANIDM_DEV_YOLO", "1");
-    let args = parse_args();
-    let mut rng = Rng::new(args.seed);
-    let mut sink = Sink::new(&args, "KV.C45.Model", 400);
-    sink.rule = "per random allowed-login list (empty, duplicates, names, spn-like entries, lower/upper-case uuid strings): (a) \
-KanidmProvider::unix_user_authorise on random tokens (validity flag, 0..6 groups with duplicates, names that are uuid strings of other \
-groups, case variants); (b) a history of 3..6 Resolver::pam_account_allowed calls on one real Resolver (cache invalidated before each \
-call) for system and directory account ids, the stub server answering token / no-matching-entries / HTTP 500 (500 => the resolver falls \
-back to the record cached by an earlier call). non-trivial = (a) non-empty allow list and non-empty group list; (b) the history contains \
-an allowed and a denied/unknown answer, or a fallback to a cached record".into();
+struct Out {
+    coq: String,
+    txt: String,
+    nontrivial: bool,
+    bumps: Vec<String>,
+}
 
-    let dir: Dir = Arc::new(Mutex::new(BTreeMap::new()));
-    let port = start_stub(dir.clone());
-    let uri = format!("http://127.0.0.1:{}", port);
-    let rt = tokio::runtime::Builder::new_current_thread().enable_all().build().expect("rt");
+const ACCOUNTS: [&str; 5] = ["alice", "bob", "carol", "root", "daemon"];
+const SYS_NAMES: [&str; 2] = ["root", "daemon"];
 
-    let pool = name_pool();
-    let uni = universe();
+/// every string that can ever be encoded, interned in a fixed order (workers run in parallel
+/// and must agree on the numbering)
+fn fixed_enc() -> Enc {
     let mut enc = Enc { strs: Intern::new() };
-    for p in &pool {
-        enc.s(p);
+    for p in name_pool() {
+        enc.s(&p);
     }
-    let accounts = ["alice", "bob", "carol", "root", "daemon"];
-    let sys_names = ["root", "daemon"];
+    for k in UUIDS {
+        enc.s(&ustr(k));
+    }
+    for g in universe() {
+        enc.s(&g.name);
+        enc.s(&g.uuid.hyphenated().to_string());
+    }
+    for a in ACCOUNTS {
+        enc.s(a);
+    }
+    enc
+}
 
-    let n_cfg = if args.thorough { 4000 } else { 600 };
-    for ci in 0..n_cfg {
-        let allow = gen_allow(&mut rng, &pool);
-        let callow: Vec<String> = allow.iter().map(|a| enc.s(a)).collect();
+struct Worker {
+    rt: tokio::runtime::Runtime,
+    dir: Dir,
+    uri: String,
+    enc: Enc,
+    n_known: u64,
+    n_cfg_done: u64,
+    pool: Vec<String>,
+    uni: Vec<G>,
+}
+
+impl Worker {
+    fn new() -> Self {
+        let dir: Dir = Arc::new(Mutex::new(BTreeMap::new()));
+        let port = start_stub(dir.clone());
+        let mut enc = fixed_enc();
+        let n_known = enc.strs.id(&"<<sentinel: first unknown string>>".to_string());
+        Worker {
+            rt: tokio::runtime::Builder::new_current_thread().enable_all().build().expect("rt"),
+            dir,
+            uri: format!("http://127.0.0.1:{}", port),
+            enc,
+            n_known,
+            n_cfg_done: 0,
+            pool: name_pool(),
+            uni: universe(),
+        }
+    }
+
+    /// one allowed-login list: a real provider + resolver, provider-level cases, two histories
+    fn run_config(&mut self, rng: &mut Rng) -> Vec<Out> {
+        let mut outs: Vec<Out> = vec![];
+        let allow = gen_allow(rng, &self.pool);
+        let callow: Vec<String> = allow.iter().map(|a| self.enc.s(a)).collect();
         let callow = clist_s(&callow);
         let with_sys = rng.chance(2, 3);
+        let uri = self.uri.clone();
+        let allow2 = allow.clone();
 
-        // ---- a real provider + resolver for this allow list
-        let (provider, resolver) = rt.block_on(async {
+        let (provider, resolver) = self.rt.block_on(async move {
             let client = KanidmClientBuilder::new()
-                .address(uri.clone())
+                .address(uri)
                 .enable_native_ca_roots(false)
                 .no_proxy()
                 .build()
@@ -241,7 +276,7 @@ an allowed and a denied/unknown answer, or a fallback to a cached record".into()
                 &KanidmConfig {
                     conn_timeout: 2,
                     request_timeout: 2,
-                    pam_allowed_login_groups: allow.clone(),
+                    pam_allowed_login_groups: allow2,
                     map_group: vec![],
                     service_account_token: Some("stub-token".to_string()),
                 },
@@ -272,7 +307,7 @@ an allowed and a denied/unknown answer, or a fallback to a cached record".into()
             .await
             .expect("resolver");
             if with_sys {
-                let users: Vec<EtcUser> = sys_names
+                let users: Vec<EtcUser> = SYS_NAMES
                     .iter()
                     .enumerate()
                     .map(|(i, n)| EtcUser {
@@ -291,19 +326,19 @@ an allowed and a denied/unknown answer, or a fallback to a cached record".into()
         });
 
         // ---- (a) provider level
-        for _ in 0..6 {
+        for _ in 0..10 {
             let n = match rng.below(8) {
                 0 => 0,
                 1 | 2 => 1,
                 3 | 4 => 2,
                 _ => rng.range(3, 6),
             };
-            let mut groups: Vec<(String, Uuid)> = (0..n).map(|_| (rng.pick(&pool).clone(), gu(*rng.pick(&UUIDS)))).collect();
+            let mut groups: Vec<(String, Uuid)> = (0..n).map(|_| (rng.pick(&self.pool).clone(), gu(*rng.pick(&UUIDS)))).collect();
             if !allow.is_empty() && rng.chance(2, 5) {
                 // plant a match by name or by uuid string (only effective if the entry is a lower-case uuid)
                 let a = rng.pick(&allow).clone();
                 let g = match Uuid::parse_str(&a) {
-                    Ok(u) if rng.chance(2, 3) => (rng.pick(&pool).clone(), u),
+                    Ok(u) if UUIDS.contains(&u.as_u128()) && rng.chance(2, 3) => (rng.pick(&self.pool).clone(), u),
                     _ => (a, gu(*rng.pick(&UUIDS))),
                 };
                 let at = rng.below(groups.len() as u64 + 1) as usize;
@@ -334,107 +369,170 @@ an allowed and a denied/unknown answer, or a fallback to a cached record".into()
                 valid,
                 extra_keys: Default::default(),
             };
-            let r = rt.block_on(provider.unix_user_authorise(&tok)).map_err(|e| format!("{:?}", e));
+            let r = self.rt.block_on(provider.unix_user_authorise(&tok)).map_err(|e| format!("{:?}", e));
             let (cres, kind) = pres(&r);
-            sink.bump(&format!("prov_{}", kind));
-            let ctok = enc.token(valid, &groups);
-            sink.case(
-                capp("CProv", &[callow.clone(), ctok, cres]),
-                format!(
+            let ctok = self.enc.token(valid, &groups);
+            outs.push(Out {
+                coq: capp("CProv", &[callow.clone(), ctok, cres]),
+                txt: format!(
                     "provider allow={:?} valid={} groups=[{}] -> {:?}",
                     allow,
                     valid,
                     groups.iter().map(|(n, u)| format!("{{name={:?},uuid={}}}", n, u)).collect::<Vec<_>>().join(","),
                     r
                 ),
-                !allow.is_empty() && !groups.is_empty(),
-            );
+                nontrivial: !allow.is_empty() && !groups.is_empty(),
+                bumps: vec![format!("prov_{}", kind)],
+            });
         }
 
-        // ---- (b) resolver level: a history of pam_account_allowed calls
-        let nsteps = rng.range(3, 6);
-        let mut csteps: Vec<String> = vec![];
-        let mut cress: Vec<String> = vec![];
-        let mut tsteps: Vec<String> = vec![];
-        let mut kinds: Vec<&'static str> = vec![];
-        let mut had_tok: BTreeMap<String, bool> = BTreeMap::new();
-        let mut fallback = false;
-        let focus = *rng.pick(&accounts[..3]);
-        for _ in 0..nsteps {
-            let id = if rng.chance(3, 5) { focus } else { *rng.pick(&accounts) };
-            let k = accounts.iter().position(|a| *a == id).expect("pos");
-            let resp = match rng.below(10) {
-                0 | 1 => DResp::NotFound,
-                2 | 3 => DResp::Error,
-                _ => {
-                    let mut gs: Vec<G> = uni.iter().filter(|_| rng.chance(2, 5)).cloned().collect();
-                    rng.shuffle(&mut gs);
-                    DResp::Tok(UnixUserToken {
-                        name: id.to_string(),
-                        spn: format!("{}@example.com", id),
-                        displayname: id.to_string(),
-                        gidnumber: 5000 + k as u32,
-                        uuid: gu(0x100 + k as u128),
-                        shell: None,
-                        groups: gs
-                            .iter()
-                            .map(|g| UnixGroupToken { name: g.name.clone(), spn: format!("{}@example.com", g.name), uuid: g.uuid, gidnumber: g.gid })
-                            .collect(),
-                        sshkeys: vec![],
-                        valid: rng.chance(3, 4),
-                    })
+        // ---- (b) resolver level: histories of pam_account_allowed calls on ONE resolver
+        // (the cache db is cleared between the histories)
+        for _ in 0..2 {
+            self.rt.block_on(resolver.clear_cache()).expect("clear_cache");
+            let nsteps = rng.range(3, 7);
+            let mut csteps: Vec<String> = vec![];
+            let mut cress: Vec<String> = vec![];
+            let mut tsteps: Vec<String> = vec![];
+            let mut kinds: Vec<&'static str> = vec![];
+            let mut bumps: Vec<String> = vec![];
+            let mut had_tok: BTreeMap<String, bool> = BTreeMap::new();
+            let mut fallback = false;
+            let focus = *rng.pick(&ACCOUNTS[..3]);
+            for _ in 0..nsteps {
+                let id = if rng.chance(3, 5) { focus } else { *rng.pick(&ACCOUNTS) };
+                let k = ACCOUNTS.iter().position(|a| *a == id).expect("pos");
+                let resp = match rng.below(10) {
+                    0 | 1 => DResp::NotFound,
+                    2 | 3 | 4 => DResp::Error,
+                    _ => {
+                        let mut gs: Vec<G> = vec![];
+                        for g in &self.uni {
+                            if rng.chance(2, 5) {
+                                gs.push(g.clone());
+                            }
+                        }
+                        rng.shuffle(&mut gs);
+                        DResp::Tok(UnixUserToken {
+                            name: id.to_string(),
+                            spn: format!("{}@example.com", id),
+                            displayname: id.to_string(),
+                            gidnumber: 5000 + k as u32,
+                            uuid: gu(0x100 + k as u128),
+                            shell: None,
+                            groups: gs
+                                .iter()
+                                .map(|g| UnixGroupToken { name: g.name.clone(), spn: format!("{}@example.com", g.name), uuid: g.uuid, gidnumber: g.gid })
+                                .collect(),
+                            sshkeys: vec![],
+                            valid: rng.chance(3, 4),
+                        })
+                    }
+                };
+                {
+                    let mut d = self.dir.lock().expect("dir");
+                    d.clear();
+                    d.insert(id.to_string(), resp.clone());
                 }
-            };
-            {
-                let mut d = dir.lock().expect("dir");
-                d.clear();
-                d.insert(id.to_string(), resp.clone());
+                let r = self.rt.block_on(async {
+                    resolver.invalidate().await.expect("invalidate");
+                    resolver.mark_next_check_now(SystemTime::now()).await;
+                    resolver.pam_account_allowed(id, &PamServiceInfo::default()).await
+                });
+                let r = r.map_err(|_| "Err(())".to_string());
+                let (cres, kind) = pres(&r);
+                bumps.push(format!("pam_{}", kind));
+                let is_sys = with_sys && SYS_NAMES.contains(&id);
+                let (cresp, tresp) = match &resp {
+                    DResp::Tok(t) => {
+                        let gs: Vec<(String, Uuid)> = t.groups.iter().map(|g| (g.name.clone(), g.uuid)).collect();
+                        if !is_sys {
+                            had_tok.insert(id.to_string(), true);
+                        }
+                        (
+                            capp("DTok", &[self.enc.token(t.valid, &gs)]),
+                            format!("token(valid={},groups=[{}])", t.valid, gs.iter().map(|(n, u)| format!("{{{:?},{}}}", n, u)).collect::<Vec<_>>().join(",")),
+                        )
+                    }
+                    DResp::NotFound => {
+                        had_tok.remove(id);
+                        ("DNotFound".to_string(), "no-matching-entries".to_string())
+                    }
+                    DResp::Error => {
+                        if !is_sys && had_tok.get(id).copied().unwrap_or(false) {
+                            fallback = true;
+                        }
+                        ("DError".to_string(), "http500".to_string())
+                    }
+                };
+                csteps.push(format!("({}, {})", self.enc.s(id), cresp));
+                cress.push(cres);
+                tsteps.push(format!("{}:{}=>{:?}", id, tresp, r));
+                kinds.push(kind);
             }
-            let r = rt.block_on(async {
-                resolver.invalidate().await.expect("invalidate");
-                resolver.mark_next_check_now(SystemTime::now()).await;
-                resolver.pam_account_allowed(id, &PamServiceInfo::default()).await
+            let csys: Vec<String> = if with_sys { SYS_NAMES.iter().map(|n| self.enc.s(n)).collect() } else { vec![] };
+            let nontrivial = fallback || (kinds.contains(&"allowed") && (kinds.contains(&"denied") || kinds.contains(&"unknown_user")));
+            if fallback {
+                bumps.push("pam_history_with_cache_fallback".into());
+            }
+            outs.push(Out {
+                coq: capp("CPam", &[callow.clone(), clist_s(&csys), clist_s(&csteps), clist_s(&cress)]),
+                txt: format!("pam allow={:?} system_users={:?} history[{}]", allow, if with_sys { &SYS_NAMES[..] } else { &[] }, tsteps.join("; ")),
+                nontrivial,
+                bumps,
             });
-            let r = r.map_err(|_| "Err(())".to_string());
-            let (cres, kind) = pres(&r);
-            sink.bump(&format!("pam_{}", kind));
-            let is_sys = with_sys && sys_names.contains(&id);
-            let (cresp, tresp) = match &resp {
-                DResp::Tok(t) => {
-                    let gs: Vec<(String, Uuid)> = t.groups.iter().map(|g| (g.name.clone(), g.uuid)).collect();
-                    if !is_sys {
-                        had_tok.insert(id.to_string(), true);
-                    }
-                    (
-                        capp("DTok", &[enc.token(t.valid, &gs)]),
-                        format!("token(valid={},groups=[{}])", t.valid, gs.iter().map(|(n, u)| format!("{{{:?},{}}}", n, u)).collect::<Vec<_>>().join(",")),
-                    )
-                }
-                DResp::NotFound => {
-                    had_tok.remove(id);
-                    ("DNotFound".to_string(), "no-matching-entries".to_string())
-                }
-                DResp::Error => {
-                    if !is_sys && had_tok.get(id).copied().unwrap_or(false) {
-                        fallback = true;
-                    }
-                    ("DError".to_string(), "http500".to_string())
-                }
-            };
-            csteps.push(format!("({}, {})", enc.s(id), cresp));
-            cress.push(cres);
-            tsteps.push(format!("{}:{}=>{:?}", id, tresp, r));
-            kinds.push(kind);
         }
-        let csys: Vec<String> = if with_sys { sys_names.iter().map(|n| enc.s(n)).collect() } else { vec![] };
-        let nontrivial = fallback || (kinds.contains(&"allowed") && (kinds.contains(&"denied") || kinds.contains(&"unknown_user")));
-        sink.case(
-            capp("CPam", &[callow.clone(), clist_s(&csys), clist_s(&csteps), clist_s(&cress)]),
-            format!("pam allow={:?} system_users={:?} history[{}]", allow, if with_sys { &sys_names[..] } else { &[] }, tsteps.join("; ")),
-            nontrivial,
-        );
-        let _ = ci;
+        // every encoded string must have been one of the pre-interned ones
+        self.n_cfg_done += 1;
+        let probe = self.enc.strs.id(&format!("<<sentinel {}>>", self.n_cfg_done));
+        assert_eq!(probe, self.n_known + self.n_cfg_done, "a string outside the fixed table was encoded");
+        outs
     }
-    sink.add_stat("allow_lists", n_cfg);
+}
+
+fn main() {
+    std::env::set_var("KANIDM_DEV_YOLO", "1");
+    let args = parse_args();
+    let mut rng = Rng::new(args.seed);
+    let mut sink = Sink::new(&args, "KV.C45.Model", 400);
+    sink.rule = "per random allowed-login list (empty, duplicates, names, spn-like entries, lower/upper-case uuid strings) a real \
+KanidmProvider + Resolver is built; (a) KanidmProvider::unix_user_authorise on 10 random tokens (validity flag, 0..7 groups with \
+duplicates, names that are uuid strings of other groups, case variants); (b) two histories of 3..7 Resolver::pam_account_allowed calls \
+(cache invalidated before each call) for system and directory account ids, the stub server answering token / no-matching-entries / \
+HTTP 500 (500 => the resolver falls back to the record cached by an earlier call). non-trivial = (a) non-empty allow list and non-empty \
+group list; (b) the history contains an allowed and a denied/unknown answer, or a fallback to a cached record".into();
+
+    // KanidmProvider::new calibrates Argon2 for ~0.25 s of wall time per provider, so the
+    // configurations are spread over worker threads; each configuration has its own forked
+    // PRNG, so the cases do not depend on the scheduling.
+    let n_cfg: usize = if args.thorough { 1800 } else { 240 };
+    let n_workers: usize = 12;
+    let seeds: Vec<Rng> = (0..n_cfg).map(|_| rng.fork()).collect();
+    let mut handles = vec![];
+    for w in 0..n_workers {
+        let mine: Vec<(usize, Rng)> = seeds.iter().cloned().enumerate().filter(|(i, _)| i % n_workers == w).collect();
+        handles.push(std::thread::spawn(move || {
+            let mut worker = Worker::new();
+            let mut res: Vec<(usize, Vec<Out>)> = vec![];
+            for (i, mut r) in mine {
+                res.push((i, worker.run_config(&mut r)));
+            }
+            res
+        }));
+    }
+    let mut all: Vec<(usize, Vec<Out>)> = vec![];
+    for h in handles {
+        all.extend(h.join().expect("worker panicked"));
+    }
+    all.sort_by_key(|(i, _)| *i);
+    for (_, outs) in all {
+        for o in outs {
+            for b in &o.bumps {
+                sink.bump(b);
+            }
+            sink.case(o.coq, o.txt, o.nontrivial);
+        }
+    }
+    sink.add_stat("allow_lists", n_cfg as u64);
     sink.finish();
 }
